@@ -3,9 +3,16 @@ Cross-check (evaluated at compile time with `#guard`, NOT a proof): the pure ste
 `Woodpile.Iovec.World.step` (over which C05 / C10 / C20 are proved) and the line-protocol driver
 `Woodpile.Driver.IovecFam.step` (which the correspondence run ties to the real crates) compute the same
 world for every op of the vocabulary, on scripted histories that exercise every op constructor, both
-branches of `push` / `push_aslice`, panics and ill-formed handles.  The driver is not modified; this file
-only prints each `WOp` as the driver's op line and compares the drivers' full `describe` output (every
-iovec, slice, arena and the live set) after every step.
+branches of `push` / `push_aslice`, panics and ill-formed handles.  This file prints each `WOp` as the
+driver's op line and compares the drivers' full `describe` output (every iovec, slice, arena and the live
+set) after every step.
+
+Status (track apigaps, audit gap 6): the driver is no longer a separately written wiring.
+`Driver/Iovec.lean` now parses every op line into a `WOp` (or, for public-API spellings, the `WOp` list
+`Props/C05A` proves it equal to) and takes the next world from `World.step` ITSELF, so the agreement
+checked here holds by construction for the world component; what these `#guard`s still exercise is the
+line parser / printer round trip (`words` below vs. the driver's parser) and the driver-side conventions
+around documented panics (`R panicked`, world unchanged).
 -/
 import Woodpile.Model.IovecOps
 import Woodpile.Driver.Iovec
